@@ -2,6 +2,7 @@ package engine
 
 import (
 	"fmt"
+	"github.com/akalin/gopar/par2"
 	"path/filepath"
 	"sort"
 	"strings"
@@ -56,7 +57,7 @@ func par2Cycle(r *Run, o cycleOpts) {
 	if !o.big && t.Bool(1, 25, "library-defaults") {
 		// let Create pick its documented defaults (slice size 2000, 3
 		// recovery blocks, default goroutine count)
-		w.S, w.R, w.G = 2000, 3, 0
+		w.S, w.R, w.G = par2.SliceByteCountDefault, par2.NumParityShardsDefault, 0
 		w.N = 0
 		for _, f := range w.Files {
 			w.N += (len(f.Data) + w.S - 1) / w.S
@@ -71,6 +72,23 @@ func par2Cycle(r *Run, o cycleOpts) {
 		return
 	}
 	w.RecordCreated(r, cre)
+	if w.UseDefaults {
+		// what the defaults were is read off the set that was written
+		if info := ref.ReadIndex(w.Created[w.Index]); info.SliceSize > 0 && info.SliceSize != w.S {
+			w.S = info.SliceSize
+			w.N = 0
+			for _, f := range w.Files {
+				w.N += (len(f.Data) + w.S - 1) / w.S
+			}
+		}
+		n := 0
+		for _, e := range w.Exps {
+			n += len(e)
+		}
+		if n > 0 {
+			w.R = n
+		}
+	}
 	if prop == "C02" {
 		r.oracleWrites(w, cre, "create")
 	}
